@@ -1,6 +1,7 @@
 import GateryModel.C05.LemmasInit
 import GateryModel.C05.Historical
 import GateryModel.C05.LemmasX
+import GateryModel.C05.LemmasSel
 /-!
 # C05 — property theorems
 
@@ -52,6 +53,48 @@ theorem C05_skipped_block_frame (ρ : List Val) (p : Prog) (B B' : BState) (top 
     (hb : build p B = some B') (hw : WF B) (hs : B.scopes = top :: rest) (hd : valAt ρ B.nodes top.full = [false]) :
     Keeps ρ top.id B B' :=
   (build_dead p B B' top rest hb hw hs hd).2.2.1
+
+/-! ### `Selection` forms (`x(Selection::Range(2, -1)) = e`, negative starts / ends count from the top)
+
+`Sel.sel` is part of the core AST: `C05_sequential` above covers reads and conditional assignments through every `Selection` form.
+`Selection.resolve` follows `BitVectorSliceStatic`'s constructor as written; the theorems below say what the forms mean, that an accepted
+selection lies inside its parent, and that an assignment through it changes exactly the selected bits. -/
+
+/-- `Selection::Range(s, -n)`, `s ≥ 0`: offset `s`, width `W - n - s` (bits `s … W-n-1`), for every parent width. -/
+theorem C05_selection_range_negative_end (s n W : Nat) (h0 : 0 < s + n) (h : s + n ≤ W) :
+    (SelForm.range s (-(n : Int))).toSelection.resolve W = some (s, W - n - s) :=
+  resolve_range_negEnd s n W h0 h
+
+/-- `Selection::RangeIncl(s, -n)`, `s ≥ 0`, `s + n ≥ 2`: offset `s`, width `W + 1 - n - s` (bits `s … W-n`). -/
+theorem C05_selection_rangeIncl_negative_end (s n W : Nat) (h0 : 2 ≤ s + n) (h : s + n ≤ W + 1) :
+    (SelForm.rangeIncl s (-(n : Int))).toSelection.resolve W = some (s, W + 1 - n - s) :=
+  resolve_rangeIncl_negEnd s n W h0 h
+
+/-- `Selection::From(-k)`: the top `k` bits; `Selection::Range(-k, -n)`: bits `W-k … W-n-1`. -/
+theorem C05_selection_negative_start (k n W : Nat) (h0 : n < k) (h : k ≤ W) :
+    (SelForm.from (-(k : Int))).toSelection.resolve W = some (W - k, k) ∧
+    (SelForm.range (-(k : Int)) (-(n : Int))).toSelection.resolve W = some (W - k, k - n) :=
+  ⟨resolve_from_neg k W (by omega) h, resolve_range_negBoth k n W h0 h⟩
+
+/-- A selection the frontend model accepts lies inside its parent (and is the resolved one). -/
+theorem C05_selection_inside_parent (sigs : List Sig) (W : Nat) (f : SelForm) (g : SelG) (h : selGeom sigs W (.sel f) = some g) :
+    ∃ off w, f.toSelection.resolve W = some (off, w) ∧ g = .stat off w (.uint w) ∧ off + w ≤ W ∧ off < W :=
+  selGeom_sel_inside h
+
+/-- `x(sel) = v` (sequential semantics, to which `C05_sequential` ties the built design): the result has the parent's width and
+differs from the old value exactly in the selected bits, which become `v`. -/
+theorem C05_selection_assign_exact (env : List Val) (cur v : Val) (f : SelForm) (off w : Nat)
+    (hr : f.toSelection.resolve cur.length = some (off, w)) (hb : off + w ≤ cur.length) (hv : v.length = w) :
+    ∃ r, writePath env cur [.sel f] v = some r ∧ r.length = cur.length ∧
+      ∀ i, r[i]? = if off ≤ i ∧ i < off + w then v[i - off]? else cur[i]? :=
+  writeSel_exact env cur v f off w hr hb hv
+
+-- non-vacuity: UInt y = v (8 bit); IF (a) y(Selection::Range(2, -1)) = "b10101"; accepted, runs, only bits 2..6 change
+def selSample : Prog :=
+  .decl (.uint 8) (.read 1 []) (.ifS (.read 0 []) (.assign 2 [.sel (.range 2 (-1))] (.const (.uint 5) [true, false, true, false, true]) .done) .done)
+example : (build selSample (initState [.bit, .uint 8])).isSome = true ∧
+    run selSample [[true], [false, false, false, false, false, false, false, true]] none =
+      some [[true], [false, false, false, false, false, false, false, true], [false, false, true, false, true, false, true, true]] := by decide
 
 /-! ### width-less variables (integer literals, `zext` / `oext`): statement-level theorems
 
